@@ -38,6 +38,7 @@ def corpus(rnd, n):
     out += [gen.document(rnd.randrange(10 ** 9), 3)[0] for _ in range(n)]
     out += ['\\begin{a}x\\end{a}', 'a\\\\b', '\\left.|x\\right.', '{\\x[o]{r}}%c\n$m$']
     # brace-less mandatory arguments (coerced from strings by the argument list), repeated texts
+    out += ['a\r\nb', '\\x\r\n{a}\r\n', 'l1\r\n\r\nl2\r\n', '\\begin{a}\r\nx\r\n\\end{a}\r\n']        # CRLF sources (chunk ends)
     out += ['\\section x and \\label k done', '\\textbf a\\textbf a', '\\section x\\section x', '\\label k \\ref{k}\\label k']
     return out
 
